@@ -365,10 +365,39 @@ pub struct HugeCase {
     pub end_payload: u16,
 }
 
-fn huge_strategy(_t: Tier) -> BoxedStrategy<HugeCase> {
+pub fn huge_strategy(_t: Tier) -> BoxedStrategy<HugeCase> {
     bx((65_000u32..=140_000, lab_addr_or_bcast(), any::<u16>(), 0u16..=4080, 3000u16..=4094, 10u8..=40, 0u16..=4090).prop_map(
         |(storage, lab, total_len, first_payload, frag_payload, n_frags, end_payload)| HugeCase { storage, lab, total_len, first_payload, frag_payload, n_frags, end_payload },
     ))
+}
+
+pub fn huge_frame(c: &HugeCase) -> (Vec<Vec<u8>>, usize) {
+    use crate::oracle::refcodec::RefPacket;
+    let mk = |start: bool, end: bool, n: usize, k: usize| -> Vec<u8> {
+        RefPacket {
+            start,
+            end,
+            lt: if start { c.lab.lt() } else { 3 },
+            frag_id: Some(5),
+            total_len: if start { Some(c.total_len.max(c.first_payload + 1)) } else { None },
+            label: if start { c.lab.bytes() } else { vec![] },
+            exts: vec![],
+            ptype: if start { Some(0x0800) } else { None },
+            first_type: None,
+            payload: pdu_bytes(n, 100 + k as u32),
+            crc: if end { Some(0xDEADBEEF) } else { None },
+        }
+        .encode(false)
+    };
+    let mut pk = vec![mk(true, false, c.first_payload as usize, 0)];
+    let mut carried = c.first_payload as usize;
+    for k in 0..c.n_frags as usize {
+        pk.push(mk(false, false, c.frag_payload as usize, k + 1));
+        carried += c.frag_payload as usize;
+    }
+    pk.push(mk(false, true, c.end_payload as usize, 99));
+    carried += c.end_payload as usize;
+    (pk, carried)
 }
 
 fn check_huge(c: &HugeCase, st: &mut Stats) -> Result<(), String> {
